@@ -167,7 +167,7 @@ def audit_pptx(path, members, declared=None, absent=()):
     return True
 
 
-def audit_epub(path, members, declared=None, absent=()):
+def audit_epub(path, members, declared=None, absent=(), nroots=None):
     """declared: expected list of (member name, token) in spine order."""
     z, names, docs = _open(path, members)
     _need(names[0] == "mimetype", "mimetype is not the first member")
@@ -175,8 +175,22 @@ def audit_epub(path, members, declared=None, absent=()):
     _need(info.compress_type == zipfile.ZIP_STORED and z.read("mimetype") == b"application/epub+zip", "mimetype not stored / wrong")
     _need(not info.extra, "mimetype entry has an extra field")
     rf = docs["META-INF/container.xml"].find(NS_OCF + "rootfiles").findall(NS_OCF + "rootfile")
-    _need(len(rf) == 1 and rf[0].get("full-path") in names, "rootfile missing")
-    opf_path = rf[0].get("full-path")
+    _need(len(rf) >= 1 and all(r.get("full-path") in names for r in rf), "rootfile missing")
+    if nroots is not None:
+        _need(len(rf) == nroots, "container lists %d rootfiles, wanted %d" % (len(rf), nroots))
+    pk = [r for r in rf if r.get("media-type") == "application/oebps-package+xml"]
+    _need(pk, "no package-document rootfile")
+    # the default rendition is the FIRST package document listed; the others must at least be sound packages
+    for other in pk[1:]:
+        o = docs[other.get("full-path")]
+        ob = posixpath.dirname(other.get("full-path"))
+        items = {it.get("id"): it for it in o.find(NS_OPF + "manifest")}
+        for it in items.values():
+            m = posixpath.normpath(posixpath.join(ob, urllib.parse.unquote(it.get("href"))))
+            _need(m in names or m in absent, "%s: manifest item -> missing member %s" % (other.get("full-path"), m))
+        for ir in o.find(NS_OPF + "spine"):
+            _need(ir.get("idref") in items, "%s: bad idref" % other.get("full-path"))
+    opf_path = pk[0].get("full-path")
     opf = docs[opf_path]
     base = posixpath.dirname(opf_path)
     man = {}
